@@ -28,7 +28,7 @@ type funcFacts struct {
 	cdepsErr  map[*ssa.BasicBlock][]cond
 	domConds  map[*ssa.BasicBlock][]cond
 	reachMemo map[[2]*ssa.BasicBlock]bool
-	csMemo    map[*ssa.BasicBlock][][]cond
+	csMemo    map[*ssa.BasicBlock][]condSetP
 }
 
 var factsCache = map[*ssa.Function]*funcFacts{}
@@ -508,46 +508,104 @@ func edgeCond(p, b *ssa.BasicBlock) (cond, bool) {
 
 const maxCondSets = 24
 
+// condSetP is a condition set together with the predecessor through which the block was entered.
+type condSetP struct {
+	conds []cond
+	pred  *ssa.BasicBlock
+}
+
+type regionPath struct {
+	conds  []cond
+	blocks []*ssa.BasicBlock // d ... b
+}
+
 // condSets returns alternative sets of conditions such that on every execution
 // reaching b at least one set holds entirely (path-sensitive refinement of
 // dominatingConds, bounded; falls back to the dominating conditions).
 func (f *funcFacts) condSets(b *ssa.BasicBlock) [][]cond {
+	var out [][]cond
+	for _, s := range f.condSetsP(b) {
+		out = append(out, s.conds)
+	}
+	return out
+}
+
+func (f *funcFacts) condSetsP(b *ssa.BasicBlock) []condSetP {
 	if f.csMemo == nil {
-		f.csMemo = map[*ssa.BasicBlock][][]cond{}
+		f.csMemo = map[*ssa.BasicBlock][]condSetP{}
 	}
 	if r, ok := f.csMemo[b]; ok {
 		return r
 	}
-	f.csMemo[b] = [][]cond{f.dominatingConds(b)} // cycle guard
+	fallback := []condSetP{{conds: f.dominatingConds(b)}}
+	f.csMemo[b] = fallback // cycle guard
 	d := b.Idom()
 	if d == nil {
-		r := [][]cond{nil}
+		r := []condSetP{{}}
 		f.csMemo[b] = r
 		return r
 	}
-	upper := f.condSets(d)
+	upper := f.condSetsP(d)
 	paths := f.regionPaths(d, b)
 	if paths == nil {
-		r := [][]cond{f.dominatingConds(b)}
-		f.csMemo[b] = r
-		return r
+		return fallback
 	}
 	if len(upper)*len(paths) > maxCondSets {
-		upper = [][]cond{f.dominatingConds(d)}
+		upper = []condSetP{{conds: f.dominatingConds(d)}}
 	}
 	if len(upper)*len(paths) > maxCondSets {
-		r := [][]cond{f.dominatingConds(b)}
-		f.csMemo[b] = r
-		return r
+		return fallback
 	}
-	var out [][]cond
+	var out []condSetP
 	for _, u := range upper {
+	nextPath:
 		for _, pth := range paths {
-			s := make([]cond, 0, len(u)+len(pth))
-			s = append(s, u...)
-			s = append(s, pth...)
-			out = append(out, s)
+			s := make([]cond, 0, len(u.conds)+len(pth.conds))
+			s = append(s, u.conds...)
+			for _, c := range pth.conds {
+				// resolve a phi condition by the predecessor taken on this path
+				if ph, ok := c.V.(*ssa.Phi); ok {
+					var pred *ssa.BasicBlock
+					if ph.Block() == d {
+						pred = u.pred
+					} else {
+						for i, blk := range pth.blocks {
+							if blk == ph.Block() && i > 0 {
+								pred = pth.blocks[i-1]
+							}
+						}
+					}
+					if pred != nil {
+						for i, pb := range ph.Block().Preds {
+							if pb != pred {
+								continue
+							}
+							ev := ph.Edges[i]
+							if cst, ok := ev.(*ssa.Const); ok && cst.Value != nil && cst.Value.Kind() == constant.Bool {
+								if constant.BoolVal(cst.Value) != c.Pos {
+									continue nextPath // this path contradicts the branch taken
+								}
+								c = cond{} // trivially true
+							} else {
+								c = cond{V: ev, Pos: c.Pos, At: c.At}
+							}
+							break
+						}
+					}
+				}
+				if c.V != nil {
+					s = append(s, c)
+				}
+			}
+			var pred *ssa.BasicBlock
+			if n := len(pth.blocks); n >= 2 {
+				pred = pth.blocks[n-2]
+			}
+			out = append(out, condSetP{conds: s, pred: pred})
 		}
+	}
+	if len(out) == 0 {
+		return fallback
 	}
 	f.csMemo[b] = out
 	return out
@@ -555,20 +613,25 @@ func (f *funcFacts) condSets(b *ssa.BasicBlock) [][]cond {
 
 // regionPaths enumerates the acyclic paths from d (idom of b) to b and returns
 // the edge conditions along each; nil if there are too many.
-func (f *funcFacts) regionPaths(d, b *ssa.BasicBlock) [][]cond {
-	var out [][]cond
+func (f *funcFacts) regionPaths(d, b *ssa.BasicBlock) []regionPath {
+	var out []regionPath
 	tooMany := false
 	var cur []cond
+	var seq []*ssa.BasicBlock
 	onPath := map[*ssa.BasicBlock]bool{}
 	var walk func(x *ssa.BasicBlock)
 	walk = func(x *ssa.BasicBlock) {
 		if tooMany {
 			return
 		}
-		if x == b && len(cur) >= 0 && (x != d || len(onPath) > 0) {
+		seq = append(seq, x)
+		defer func() { seq = seq[:len(seq)-1] }()
+		if x == b {
 			cp := make([]cond, len(cur))
 			copy(cp, cur)
-			out = append(out, cp)
+			sq := make([]*ssa.BasicBlock, len(seq))
+			copy(sq, seq)
+			out = append(out, regionPath{conds: cp, blocks: sq})
 			if len(out) > maxCondSets {
 				tooMany = true
 			}
